@@ -5,7 +5,8 @@
    proved equal (Bridge.v) to the step regenerated from evaluate()/_split() on this run (Site.v). *)
 From Coq Require Import ZArith QArith List Bool.
 Require Import SkV.Lib.Base SkV.Lib.ZRange SkV.C01.Model SkV.C01.Gen SkV.C01.Bridge SkV.C01.Proofs.
-Require Import SkV.C07.Model SkV.C07.Site SkV.C07.Bridge SkV.C07.Cases SkV.C07.Proofs SkV.C07.FitParams.
+Require Import SkV.C07.Model SkV.C07.Site SkV.C07.Bridge SkV.C07.Cases SkV.C07.Proofs SkV.C07.FitParams
+               SkV.C07.PriorState.
 Import ListNotations.
 Open Scope Z_scope.
 
@@ -178,6 +179,34 @@ Theorem C07_rejects_iff_splitter_rejects :
   evaluate XV tm yv xv respond cutoff_after metric sp st = Err <-> splitter_splits sp = Err.
 Proof. exact evaluate_rejects_iff. Qed.
 Print Assumptions C07_rejects_iff_splitter_rejects.
+
+(* the state of the forecaster OBJECT handed to evaluate() (already fitted on the full series / on
+   another series / used by an earlier evaluate: an object whose history of calls is `pre`) does not
+   show in the rows, for both strategies, for every forecaster whose fit forgets; evaluate() tells it
+   the honest history on top of what it had been told *)
+Theorem C07_rows_do_not_depend_on_the_state_of_the_forecaster_passed_in :
+  forall XV tm yv xv respond cutoff_after metric st fhmin,
+  fit_forgets XV respond cutoff_after -> forall pre ss,
+  fst (evaluate_from XV tm yv xv respond cutoff_after metric st fhmin pre ss) =
+    fst (evaluate_from XV tm yv xv respond cutoff_after metric st fhmin [] ss) /\
+  snd (evaluate_from XV tm yv xv respond cutoff_after metric st fhmin pre ss) =
+    pre ++ snd (evaluate_from XV tm yv xv respond cutoff_after metric st fhmin [] ss).
+Proof. exact evaluate_ignores_prior_history. Qed.
+Print Assumptions C07_rows_do_not_depend_on_the_state_of_the_forecaster_passed_in.
+
+(* "skip the initial fit if the forecaster is already fitted" (regression C07-g) is the same
+   function on a fresh object and under refit, and scores an object fitted beforehand on a model
+   that was never fitted on the first training window *)
+Theorem C07_skipping_the_first_fit_is_invisible_on_fresh_objects_and_wrong_on_fitted_ones :
+  (forall XV tm yv xv respond cutoff_after metric st fhmin ss,
+   eval_folds_skip XV tm yv xv respond cutoff_after metric st fhmin [] ss =
+   eval_folds XV tm yv xv respond cutoff_after metric st fhmin 0 [] ss) /\
+  map is_fit_call (skipn 1 (snd ps_honest)) = [true; false; false; false] /\
+  map is_fit_call (skipn 1 (snd ps_skip)) = [false; false; false; false] /\
+  map (fun p => Qeq_bool (r_score (fst p)) (r_score (snd p)))
+      (combine (fst ps_honest) (fst ps_skip)) = [false; false].
+Proof. exact (conj skip_harmless_for_fresh_object skip_refuted). Qed.
+Print Assumptions C07_skipping_the_first_fit_is_invisible_on_fresh_objects_and_wrong_on_fitted_ones.
 
 (* the two forecaster contracts used above are met by the Coq twins of the recording test double
    and of NaiveForecaster(last/mean) that the correspondence run compares with the real classes *)
